@@ -131,7 +131,7 @@ type c02Worker struct {
 	// than the full alphabet) and run on the edge-property fixture only
 	edgeStart   int
 	edgeTargets []c02Target
-	spell   [][][]refsem.Step // groups of programs that must return identical rows
+	spell       [][][]refsem.Step // groups of programs that must return identical rows
 }
 
 func c02Alphabet() []refsem.Step {
